@@ -41,11 +41,20 @@ class Run:
 
 	def go(self):
 		ev = vclock.VEvent(self.vt, gated = False, stop_after = self.nticks, latency = self.lat)
-		self.gen._breaker = ev
+		self.ev = ev
+		if not vclock.attach(sim.clck_gen, self.gen, self.vt, ev):
+			raise common.HarnessError("cannot identify the clock generator's stop event")
 		self.t_start = self.vt.now
 		self.gen.start()
-		th = self.gen._thread
-		th.join(600)
+		th = next((v for v in vars(self.gen).values() if isinstance(v, threading.Thread)), None)
+		if th is None:
+			raise common.HarnessError("cannot find the clock generator's thread")
+		import time as _t
+		t0 = _t.time()
+		while th.is_alive() and _t.time() - t0 < 600:
+			th.join(0.05)
+			if ev.entered == 0 and _t.time() - t0 > 5:
+				break      # the generator never came to the harness event: not attached
 		alive = th.is_alive()
 		if alive:
 			ev.set()
@@ -95,7 +104,11 @@ def check_trace(ctx, run, T, desc, restarted = False):
 def calibrate(ctx, world):
 	""" Tick period of the running code, measured: t_1 - t_0 with idle handlers. """
 	run = Run(world, 0, 102, 0, 4, lambda k: 0, lambda k: 0)
-	if not run.go() or len(run.trace) != 4:
+	ok = run.go()
+	if run.vt.calls == 0 or run.ev.waits == 0:
+		# the generator does not read the harness clock / wait on the harness event: nothing can be decided
+		raise common.HarnessError("virtual clock could not be attached to clck_gen (time source or breaker event changed)")
+	if not ok or len(run.trace) != 4:
 		ctx.violation("calibrate", {"trace": run.trace}, what = "clock generator did not deliver 4 ticks")
 		return None
 	T = run.trace[1][1] - run.trace[0][1]
